@@ -139,6 +139,8 @@ def run(ctx):
     ctx.lean(["Crng.Props.C10"], ["Crng.Props.C10.emit_once", "Crng.Props.C10.emit_ascending", "Crng.Props.C10.late_is_counted",
                                   "Crng.Props.C10.step_eq", "Crng.Props.C10.emitted_eq"])
     cases = gen_cases(ctx.rng("agg"), ctx.scale(500, 8000))
-    ctx.stream("aggregator", "agg", cases, canon=canon, monitor=monitor,
+    # spec-exact: which (name, bucket) lines are emitted at which tick, in which order, with which six-decimal value, is what the
+    # property fixes; the executable model computes the ten functions on IEEE doubles with Go's %f
+    ctx.stream("aggregator", "agg", cases, canon=canon, monitor=monitor, spec_exact=True, removable=lambda l: l.startswith(("p ", "t ")),
                classify=lambda l, o: l[0].split()[1],
                nontrivial=lambda l, o: tuple(o) if any(x.startswith("t ") and x != "t 0" for x in o) else None)
